@@ -37,11 +37,78 @@ def cases(tier, seed):
             for p in PAIRS_REV:
                 for a0 in ("default", "random"):
                     out.append({"law": law, "sub": "rev", "pair": list(p), "added": True, "angle0": a0, "law_first": (r + len(out)) % 2 == 0})
+            for p in (("fixed_frame", "rigid_body"), ("rigid_body", "rigid_body")):
+                out.append({"law": law, "sub": "rev_late", "pair": list(p)})
     return out
+
+
+def run_late(spec, ctx):
+    """the joint exists and the system was assembled before; the system is re-initialised at another admissible state (restart
+    workflow); THEN a force law without reference length is attached and the system assembled again: 'the initial
+    configuration' is the one of this assembly"""
+    from cardillo import System
+    from cardillo.solver import SolverOptions
+    import cardillo.constraints as C
+    from vlib.oracles import quat_to_mat
+    rng = ctx.rng
+    t0 = float(rng.normal()) if rng.random() < 0.5 else 0.0
+    det = dict(spec); det["t0"] = t0
+    with gen.quiet():
+        system = System(t0=t0)
+        subs, mots = [], []
+        for kind, nm in zip(spec["pair"], ("a", "b")):
+            s_, _, _, m = gen.make_subsystem(rng, kind, nm)
+            subs.append(s_); mots.append(m)
+        for s_ in subs:
+            if getattr(s_, "nu", 0):
+                s_.u0 = np.zeros(s_.nu)
+        axis = int(rng.integers(3))
+        angle0 = float(rng.uniform(-3 * np.pi, 3 * np.pi)) if rng.random() < 0.7 else 0.0
+        joint = C.Revolute(subs[0], subs[1], axis, angle0=angle0, r_OJ0=rng.normal(size=3), A_IJ0=quat_to_mat(rng.normal(size=4)), name="joint")
+        system.add(*subs); system.add(joint)
+        ctx.cls(f"law:{spec['law']}"); ctx.cls(f"sub:rev_late:{spec['pair'][0]}-{spec['pair'][1]}")
+        ctx.mon("assemble")
+        try:
+            system.assemble(options=SolverOptions())
+            model = forcegen.RevoluteModel(system, joint, subs, mots)
+            phi = float(rng.uniform(0.3, 1.2)) * (1 if rng.random() < 0.5 else -1)
+            joint.l(system.t0, system.q0[joint.qDOF])
+            q1, _ = model.manifold_state(rng, system.t0, phi, 0.0)
+            u1 = np.zeros(system.nu)
+            t1 = system.t0 + (float(rng.uniform(0.1, 1)) if not any(m is not None and (m.moving or m.rotating) for m in mots) else 0.0)
+            system.set_new_initial_state(q1, u1, t0=t1, options=SolverOptions())
+            elem, linfo = forcegen.make_law(rng, spec["law"], joint, l_ref=None)
+            system.add(elem)
+            system.assemble(options=SolverOptions())
+        except Exception as e:
+            ctx.violation(f"{spec['law']}@rev_late.assemble", "attaching a force law without explicit reference length after a re-initialisation fails",
+                          {**det, "error": f"{type(e).__name__}: {e}"[:300]})
+            ctx.sig([det], nontrivial=True); ctx.sample(det)
+            return
+        det.update(linfo); det.update({"axis": axis, "angle0": angle0, "phi_at_reinitialisation": phi})
+        t, q, u = system.t0, system.q0, system.u0
+        l0 = float(joint.l(t, q[joint.qDOF]))
+        k = linfo["k"]
+        tol = 1e-10 * k * (1 + abs(l0))
+        ex = {**det, "l0": l0, "l_ref": getattr(elem, "l_ref", None)}
+        ctx.mon("zero_energy")
+        E = float(system.E_pot(t, q))
+        if abs(E) > tol * (1 + abs(l0)):
+            ctx.violation(f"{spec['law']}@rev_late.E_pot", "element attached after a re-initialisation stores energy in the (new) initial configuration although no reference length was given", {**ex, "E_pot": E})
+        ctx.mon("zero_force")
+        h = system.h(t, q, u)
+        if np.abs(h).max() > tol * 10:
+            ctx.violation(f"{spec['law']}@rev_late.h", "element attached after a re-initialisation exerts a force in the (new) initial configuration although no reference length was given", {**ex, "h": h})
+        if system.nla_c and np.abs(system.la_c(t, q, u)).max() > tol:
+            ctx.violation(f"{spec['law']}@rev_late.la_c", "compliance-form force is nonzero in the (new) initial configuration", {**ex, "la_c": system.la_c(t, q, u)})
+    ctx.sig([det], nontrivial=True)
+    ctx.sample(det)
 
 
 def run_case(spec, ctx):
     env.import_cardillo()
+    if spec["sub"] == "rev_late":
+        return run_late(spec, ctx)
     from cardillo import System
     from cardillo.solver import SolverOptions
     import cardillo.constraints as C
@@ -70,6 +137,17 @@ def run_case(spec, ctx):
         for s in subs:  # at rest
             if hasattr(s, "u0") and getattr(s, "nu", 0):
                 s.u0 = np.zeros(s.nu)
+        if spec["sub"] == "tpi" and rng.random() < 0.35:
+            # whole-number initial coordinates given as an INTEGER array (what a user writes as np.array([1, 0, 2]))
+            pms = [s for s in subs if s.__class__.__name__ == "PointMass"]
+            if pms:
+                pm = pms[int(rng.integers(len(pms)))]
+                qi = np.rint(np.asarray(pm.q0) * 3).astype(np.int64)
+                if not np.any(qi):
+                    qi[0] = 2
+                pm.q0 = qi
+                det["integer_q0"] = pm.name
+                ctx.cls("q0:integer_array")
         elem, linfo = forcegen.make_law(rng, spec["law"], inter, l_ref=None)
         det.update(info); det.update(linfo)
         system.add(*subs)
